@@ -412,9 +412,15 @@ pub fn run(ctx: &mut Ctx) {
             ctx.rep.sample(c.json());
         }
     }
+    // the rows the encoder really emits, with its row bookkeeping (public API; also runs without the hooks)
+    crate::props::c14_enc::run_part(ctx);
 }
 
 pub fn replay(ctx: &mut Ctx, case: &J) {
+    if case.get("op").and_then(|o| o.as_str()) == Some("encrows") {
+        crate::props::c14_enc::replay_case(ctx, case);
+        return;
+    }
     #[cfg(png_verif)]
     {
         match case.get("op").and_then(|o| o.as_str()) {
